@@ -29,7 +29,7 @@ static bool glob_match(const unsigned short *pat, int pn, const unsigned short *
     return r;
 }
 
-static const unsigned short g_alpha[] = { 'a', 'b', '.', '*', '+', '(', '_', 'A' };
+static const unsigned short g_alpha[] = { 'a', 'b', '.', '*', '+', '(', '/', '?' };
 static const char *const g_types[] = { "", ".debug", ".info", ".warning", ".critical" };
 static const QtMsgType g_typeVal[] = { QtDebugMsg, QtDebugMsg, QtInfoMsg, QtWarningMsg, QtCriticalMsg };
 
